@@ -187,6 +187,15 @@ fn gen_program(src: &mut Src, profile: Profile) -> Program {
             bounds.push(b);
         }
     }
+    if nb == 4 && src.chance(48) {
+        // wide configuration (the number of buckets is not limited by the library): 33-40 bounds
+        for k in 0..(33 + src.below(8)) {
+            let b = 0.75 * (1u64 << (k / 2)) as f64 * if k % 2 == 0 { 1.0 } else { 1.5 };
+            if !bounds.contains(&b) {
+                bounds.push(b);
+            }
+        }
+    }
     bounds.sort_by(|a, b| a.partial_cmp(b).unwrap());
     Program { threads, bounds, via_vec: src.chance(80), sequential, isolation }
 }
@@ -590,7 +599,7 @@ impl Property for C02 {
         "C02"
     }
     fn rule(&self) -> &'static str {
-        "case = one Histogram (direct or HistogramVec child, registered) with 0-4 bucket bounds among the powers of two in use; 2-4 \
+        "case = one Histogram (direct or HistogramVec child, registered) with 0-4 bucket bounds among the powers of two in use (4% of cases: 33-40 further bounds); 2-4 \
          threads: 1-2 collectors (Metric::metric / Collector::collect / Registry::gather, up to 6 collections) and observers \
          (observe(2^i) with a unique bit per observation, local observe + flush batches), 1-5 operations each; schedule = walk / PCT / \
          window (pause a thread before its k-th atomic step while another completes whole operations) with up to 3 injected spurious \
